@@ -182,7 +182,7 @@ def _(c):
     pm.bitcnt = cnt
     bl = c.int('bitlen', 0, 1 << 70)
     c.assume(bl < cnt)
-    c.raises('bitlen<bitcnt', AssertionError, type(pm).lastblock, pm, b'', bitlen=bl)
+    c.raises('bitlen<bitcnt', Exception, type(pm).lastblock, pm, b'', bitlen=bl)
 
 # ------------------------------------------------------------------ whole hash, bounded in length, contents symbolic (B)
 def _lens(tier, bl):
